@@ -36,10 +36,12 @@ func To(fs http.FileSystem, r *http.Request, to string, replacer httpserver.Repl
 		t = replacer.Replace(v)
 		tparts := strings.SplitN(t, "?", 2)
 
+		// the rewritten path must stay rooted: path matchers further down
+		// the chain (basicauth, internal, ...) only understand rooted paths
 		if len(without) > 0 {
-			t = path.Clean(strings.TrimPrefix(tparts[0], without[0]))
+			t = path.Clean("/" + strings.TrimPrefix(tparts[0], without[0]))
 		} else {
-			t = path.Clean(tparts[0])
+			t = path.Clean("/" + tparts[0])
 		}
 
 		if len(tparts) > 1 {
